@@ -46,6 +46,12 @@ def make_cases(rng, tier):
             build = [r for r in build if r['d'][0] != classes[-1]]
         match = [{'t': [rng.randint(0, hi) for _ in range(S)], 'd': [rng.choice(classes) for _ in range(W)]} for _ in range(rng.randint(1, 5))]
         cases.append({'c': {'S': S, 'W': W, 'classes': classes, 'variant': 'fixed'}, 'build': build, 'match': match})
+    # orthogonal designs: within every class the two samples are exactly uncorrelated, so the pooled covariance is exactly diagonal (in every precision);
+    # presented with sample 0 multiplied by 4096 (TplCases.ScalingLemma) the two samples differ by seven orders of magnitude in variance
+    for means in ([(2, 1), (6, 3)], [(3, 2), (9, 1), (5, 5)]):
+        build = [{'t': [m0 + s0, m1 + s1], 'd': [k]} for k, (m0, m1) in enumerate(means) for s0 in (-1, 1) for s1 in (-1, 1)]
+        match = [{'t': [rng.randint(0, 9), rng.randint(0, 6)], 'd': [rng.randrange(len(means))]} for _ in range(4)]
+        cases.append({'c': {'S': 2, 'W': 1, 'classes': list(range(len(means))), 'variant': 'fixed'}, 'build': build, 'match': match, 'scale0': 4096})
     return cases
 
 
@@ -109,7 +115,7 @@ def run(chk):
     chk.add_tlc('MC:template-mean(pinned rule, must be refuted)', r0)
     if not r0.violated:
         raise tlc.TLCError('TplCases lost sensitivity: "count <= 1 -> 2 before the mean" is no longer refuted')
-    res = st.cases_run(chk, 'TplCases', cases, ['PInvLemma', 'KMatchesP'], 'CASES:templates')
+    res = st.cases_run(chk, 'TplCases', cases, ['PInvLemma', 'KMatchesP', 'ScalingLemma'], 'CASES:templates')
     pres = [('uint8', 1.0), ('int16', 1.0), ('float32', 0.5), ('float64', 0.25)]
     old_bs = scared.Container._BATCH_SIZE
     try:
@@ -130,6 +136,15 @@ def run(chk):
                             chk.violation('matching before build is refused', dict(ctx, property='C14'), 'run() before build() did not raise')
                         except Exception:
                             pass
+                        if ci % 3 == 1 and len(case['build']) >= 4:
+                            # the profile built in two steps: part of the building traces, build(), the rest through a second building container, build() again
+                            half = len(case['build']) // 2
+                            cbA, _ = containers(dict(case, build=case['build'][:half]), dt, sc)
+                            cbB, _ = containers(dict(case, build=case['build'][half:]), dt, sc)
+                            a = attacks(case, cbA, prec, which)
+                            a.build()
+                            a.container_building = cbB
+                            ctx = dict(ctx, build_in_two_steps=half)
                         a.build()
                         nonempty = [k for k, cv in enumerate(c['classes']) if any(r['d'][0] == cv for r in case['build'])]
                         want_t = np.array([[fr(x) * sc for x in row] for row in rs['tpl']])
@@ -164,10 +179,44 @@ def run(chk):
                                     a.run(cm)
                                     cmp(chk, f'{which} matching score is 10 - mean squared Mahalanobis distance to the candidate template (set matched twice)', a.scores, want_s, prec, kap * condn * 8,
                                         dict(ctx, mag=magn, history='run, compute_results, run'), f'{which} scores after matching the same set twice')
+            if case.get('scale0'):
+                scaled_presentation(chk, case, rs, ci)
             chk.traces_validated += 1
     finally:
         scared.Container._BATCH_SIZE = old_bs
     chk.sample({'case': cases[0], 'expected': res[0]})
+
+
+def scaled_presentation(chk, case, rs, ci):
+    """sample 0 of every building and matching trace multiplied by 4096 (a power of two: every float operation scales exactly):
+    templates and pooled covariance scale accordingly, the pseudo-inverse inversely, the scores do not change (TplCases.ScalingLemma)"""
+    import scared
+    k = case['scale0']
+    D = np.array([k, 1.0])
+    sc_case = {'c': case['c'], 'build': [{'t': [r['t'][0] * k, r['t'][1]], 'd': r['d']} for r in case['build']],
+               'match': [{'t': [r['t'][0] * k, r['t'][1]], 'd': r['d']} for r in case['match']]}
+    want_t = np.array([[fr(x) for x in row] for row in rs['tpl']]) * D
+    want_p = np.array([[fr(x) for x in row] for row in rs['pooled']]) * np.outer(D, D)
+    want_a = np.array([[fr(x) for x in row] for row in rs['pinv']]) / np.outer(D, D)
+    scared.set_batch_size(None)
+    for prec in ('float32', 'float64'):
+        rtol = 2e-5 if prec == 'float32' else 1e-11
+        for which in ('static', 'dpa'):
+            cb, cm = containers(sc_case, 'int32', 1.0)
+            a = attacks(sc_case, cb, prec, which)
+            a.build()
+            a.run(cm)
+            want_s = np.array([fr(x) for x in rs['static' if which == 'static' else 'dpa']])
+            ctx = {'property': 'C14', 'case': sc_case, 'which': which, 'batch_size': None, 'trace_dtype': 'int32', 'scale': 1.0, 'precision': prec, 'sample0_multiplied_by': k}
+            for name, got, want in (('template of a class is the mean of its building traces', a.templates, want_t),
+                                    ('pooled covariance is the average over declared classes of the unbiased within-class covariances', a.pooled_covariance, want_p),
+                                    ('pooled_covariance_inv is the pseudo-inverse of the pooled covariance', a.pooled_covariance_inv, want_a),
+                                    (f'{which} matching score is 10 - mean squared Mahalanobis distance to the candidate template', a.scores, want_s)):
+                got = np.asarray(got, dtype='float64')
+                chk.count((name, prec, ('scaled', ci, which)), nontrivial=True)
+                if got.shape != want.shape or not np.allclose(got, want, rtol=rtol, atol=rtol * float(np.abs(want).max()) * 1e-3):
+                    chk.violation(name + ' (samples of very different magnitude)', dict(ctx, got=got.tolist(), expected=want.tolist()), f'{name} with sample 0 x{k} ({prec}, {which}): got {got.tolist()} expected {want.tolist()}')
+                    break
 
 
 def enumerated(chk):
